@@ -5,7 +5,10 @@ go 1.25.7
 toolchain go1.25.8
 
 require (
+	filippo.io/edwards25519 v1.2.0
 	github.com/blinklabs-io/gouroboros v0.0.0
+	github.com/btcsuite/btcd/btcutil v1.2.0
+	github.com/fxamacker/cbor/v2 v2.9.2
 	golang.org/x/crypto v0.55.0
 )
 
@@ -13,13 +16,11 @@ require (
 	github.com/bits-and-blooms/bitset v1.24.4 // indirect
 	github.com/blinklabs-io/plutigo v0.3.0 // indirect
 	github.com/btcsuite/btcd/btcec/v2 v2.5.0 // indirect
-	github.com/btcsuite/btcd/btcutil v1.2.0 // indirect
 	github.com/btcsuite/btcd/chaincfg/chainhash v1.2.0 // indirect
 	github.com/btcsuite/btcd/chainhash/v2 v2.0.0 // indirect
 	github.com/consensys/gnark-crypto v0.20.1 // indirect
 	github.com/decred/dcrd/crypto/blake256 v1.1.0 // indirect
 	github.com/decred/dcrd/dcrec/secp256k1/v4 v4.4.0 // indirect
-	github.com/fxamacker/cbor/v2 v2.9.2 // indirect
 	github.com/jinzhu/copier v0.4.0 // indirect
 	github.com/klauspost/cpuid/v2 v2.2.3 // indirect
 	github.com/minio/sha256-simd v1.0.1 // indirect
